@@ -39,6 +39,7 @@ def plan(tier, seed):
     specs = [{"kind": "rand", "i": i, "count": 110 if q else 600} for i in range(n)]
     specs += [{"kind": "poly", "i": i, "count": 10 if q else 40} for i in range(8)]
     specs += [{"kind": "deep", "i": i, "count": 120 if q else 1200} for i in range(16)]
+    specs += [{"kind": "deep", "i": 100 + i, "count": 100 if q else 1000, "big": True} for i in range(8)]
     specs += [{"kind": "cli", "i": i} for i in range(7 if q else 28)]
     specs.append({"kind": "corpus", "big": not q})
     return specs
@@ -248,7 +249,15 @@ def run(ctx, spec):
     elif spec["kind"] == "deep":
         for k in range(spec["count"]):
             ordered = k % 4 == 0
-            case = gen.deep_super_case(rng, ordered=ordered, max_obj=6 if ordered else 7, max_fam=4 if ordered else 5)
+            big = spec.get("big") and not ordered
+            if big:
+                # long chains of ancestors (8-12 leaves, caterpillar-like), unordered: validity needs no oracle beyond the
+                # gain nodes, so size is cheap here
+                case = gen.deep_super_case(rng, ordered=False, min_obj=8, max_obj=12, max_fam=6, max_sp=5)
+                case["costs"] = gen.tame(case["costs"], len(case["leafmap"]))
+                ctx.count("big_cases")
+            else:
+                case = gen.deep_super_case(rng, ordered=ordered, max_obj=6 if ordered else 7, max_fam=4 if ordered else 5)
             if k % 3 == 0:
                 case["costs"] = gen.tame(gen.random_cost(rng, coherent_only=False), len(case["leafmap"]))
             case.update(kind="c04", algos=["ext_spfs"] if ordered else ["superdtl", "base_uspfs"])
